@@ -68,6 +68,8 @@ def gen_case(r):
         p['table'] = '%s.t_%s' % ({'db': 'db', 'home': 'logica_home', 'test': 'logica_test', 'dataset': 'wh'}[case['db']], p['name'].lower())
     elif r.random() < 0.3:
       p['plan'] = r.choice(['with', 'nowith'])
+    if p['ground'] and r.random() < 0.2:
+      p['plan'] = r.choice(['with', 'nowith'])      # @Ground decides: the plan annotation must not undo it
   case['preds'] = preds
   # a flag parameter used in the definitions (also of grounded predicates): default or a command line value
   if r.random() < 0.35:
